@@ -1,7 +1,8 @@
 //! BOUNDED stand-in (never counted as proved) for the ASSUMED contracts of `convert_file_path` and
 //! `validate_file_path` (C03).  The two functions are private; tools/extract.py copies their source text verbatim
 //! into src/extracted.rs on every run.  Exhaustive over: 10 served-directory spellings x 5 leading-separator
-//! prefixes x all names of 1..=4 segments over an 8-element segment alphabet, joined by '/' or '\\' (uniformly or
+//! prefixes x all names of 1..=4 segments over a 10-element segment alphabet (incl. the components of the served directory and of a neighbour
+//! whose name begins with the directory's name, so that absolute names that share a string prefix with it occur), joined by '/' or '\\' (uniformly or
 //! alternating).  Oracle (independent, lexical): a name may be ACCEPTED only if `dir.join(convert(name))`, read
 //! component by component, never leaves `dir`.  exit 1 + a concrete (dir, name) on the first violation.
 #[path = "../extracted.rs"]
@@ -41,7 +42,7 @@ fn stays_inside(path: &str, dir: &str) -> bool {
 fn main() {
     let dirs = ["/srv/tftp", "/srv/tftp/", "/srv/tftp//", "srv", "srv/", ".", "./", "/", "/srv/tftp..old", "/srv/tf tp/"];
     let leads = ["", "/", "\\", "//", "\\/"];
-    let alphabet = ["..", ".", "a", "b..", "..c", "tftp", "...", ""];
+    let alphabet = ["..", ".", "a", "b..", "..c", "tftp", "...", "", "srv", "tftp.old"];
     let mut cases: u64 = 0;
     let mut accepted: u64 = 0;
     let mut distinct_accepting_shapes = std::collections::BTreeSet::new();
